@@ -21,6 +21,7 @@ IdBase == 10000
 
 (* ------------------------------- value types ----------------------------- *)
 DL(n, t, d, defs) == [name |-> n, t |-> t, d |-> d, defs |-> defs]
+Tok(n) == 7770000 + n     \* 1: 2^53+1  2: 2^31-1  3: 2^63-1  4: 2^64-1  5: 2^32-1  6: 2^24+1  7: 3*10^9  8: 2^53  (python_common.NUM_TOKENS)
 PlainInt == TInt("int64", NoB, NoB)
 PlainStr == TStr(-1, -1)
 \* every field optional: the partial override {name: "x"} is itself a value the three schema languages accept for Child
@@ -51,7 +52,13 @@ DefLeaves == <<
   \* negative numbers (appended: the ids of the entries above stay what they were): a default must come out exactly,
   \* whatever sign-dependent conversion (rounding, truncation, unsigned cast) a parser or a jenny applies to it
   DL("integer-negative",     PlainInt, JInt(-3), <<>>),
-  DL("float-negative",       TNum("float64", NoB, NoB), JNum(-15), <<>>)
+  DL("float-negative",       TNum("float64", NoB, NoB), JNum(-15), <<>>),
+  \* integers that a float64 cannot hold (2^53 + 1), as default, as constant and as enum member: they must arrive digit for digit.
+  \* TLC's integers are 32 bits wide: the value travels as the TOKEN Tok(1) and checks/python_common.py substitutes the real
+  \* number in the schema text and maps it back when a real outcome is recorded (exact integers on both sides, never floats)
+  DL("integer-big",          PlainInt, JInt(Tok(1)), <<>>),
+  DL("constant-integer-big", TConst(JInt(Tok(1))), NoJ, <<>>),
+  DL("int-enum-big-member",  TIEnum(<<1, Tok(1)>>), JInt(Tok(1)), <<>>)
 >>
 
 (* -------------------------------- positions ------------------------------ *)
@@ -91,6 +98,8 @@ DFixedList == <<
 (* values (oneOf: [Zebra, Apple]), with two and with three branches; Docs() holds a document of every branch, alone,      *)
 (* in an array and in an optional field. C11: each value must be decoded by the class of ITS branch. (Appended after      *)
 (* the leaf x position entries: earlier ids are unchanged.)                                                                *)
+\* a discriminated union with an explicit value -> type mapping (rendered as OpenAPI discriminator.mapping)
+TDUnionM(d, refs, mapping) == [k |-> "dunion", disc |-> d, refs |-> refs, mapping |-> mapping]
 UZebra == Def("Zebra", TStruct(<<F("kind", TConst(JStr("zebra"))), F("z", PlainInt)>>))
 UApple == Def("Apple", TStruct(<<F("kind", TConst(JStr("apple"))), F("a", PlainStr)>>))
 UMango == Def("Mango", TStruct(<<F("kind", TConst(JStr("mango"))), F("m", TBool), FOpt("om", PlainStr)>>))
@@ -102,7 +111,21 @@ DFixedList2 == <<
   Fixed("union-unsorted-3", <<
     Def("Root", TStruct(<<F("du", TDUnion("kind", <<"Mango", "Zebra", "Apple">>)), F("items", TArr(TDUnion("kind", <<"Mango", "Zebra", "Apple">>))),
                           FOpt("byKey", TMap(TDUnion("kind", <<"Mango", "Zebra", "Apple">>)))>>)),
-    UMango, UZebra, UApple>>, FALSE)
+    UMango, UZebra, UApple>>, FALSE),
+  \* named collections: maps / arrays whose values are REFERENCES to named maps / arrays of objects, mixed with direct ones
+  Fixed("named-collections", <<
+    Def("Root", TStruct(<<F("cells", TMap(TRef("PointsByName"))), FOpt("rows", TArr(TRef("PointsByName"))), FOpt("lists", TMap(TRef("PointList"))),
+                          FOpt("deep", TMap(TMap(TRef("PointsByName")))), FOpt("grid", TRef("Grid")), FOpt("mixed", TMap(TArr(TRef("PointsByName"))))>>)),
+    Def("PointsByName", TMap(TRef("Point"))), Def("PointList", TArr(TRef("Point"))), Def("Grid", TMap(TRef("PointsByName"))),
+    Def("Point", TStruct(<<F("x", PlainInt), FOpt("y", PlainInt)>>))>>, FALSE),
+  \* a discriminator mapping that is not injective: two values select the same type (OpenAPI discriminator.mapping)
+  Fixed("union-shared-mapping", <<
+    Def("Root", TStruct(<<F("background", TDUnionM("kind", <<"Circle", "Polygon">>,
+                                                   <<[v |-> "circle", ref |-> "Circle"], [v |-> "square", ref |-> "Polygon"], [v |-> "triangle", ref |-> "Polygon"]>>)),
+                          FOpt("shapes", TArr(TDUnionM("kind", <<"Circle", "Polygon">>,
+                                                   <<[v |-> "circle", ref |-> "Circle"], [v |-> "square", ref |-> "Polygon"], [v |-> "triangle", ref |-> "Polygon"]>>)))>>)),
+    Def("Circle", TStruct(<<F("kind", TConst(JStr("circle"))), F("r", PlainInt)>>)),
+    Def("Polygon", TStruct(<<F("kind", TEnum(<<"square", "triangle">>)), F("sides", PlainInt)>>))>>, FALSE)
 >>
 
 DefCatalogue ==
